@@ -234,8 +234,9 @@ def can_add(ctx: Ctx, rule: str) -> None:
                "" if not problems and kinds == {"present", "mask", "answer"} else (problems[0] if problems else f"rows found: {sorted(kinds)}"))
     f = ctx.repo.func(f"{VC}.has_interface")
     rets = [r for r in ast.walk(f.node) if isinstance(r, ast.Return)]
-    okh = len(rets) == 1 and norm.equivalent(norm.formula(rets[0].value), norm.conj([("atom", "interface.ip in self.interfaces.keys()"),
-                                                                                    ("atom", "self.interfaces[interface.ip] == interface")]))
+    from ..canon import parse_expr
+
+    okh = len(rets) == 1 and norm.equivalent(norm.formula(rets[0].value), norm.formula(parse_expr("interface.ip in self.interfaces.keys() and self.interfaces[interface.ip] == interface")))
     ctx.record(rule + "h", "TABLE", f.ref, "has_interface: key present and the registered object is this interface", okh, {}, "" if okh else "has_interface changed")
 
 
